@@ -7,7 +7,7 @@ from ..harness import POISONS, poisoned_empty, qcall
 
 ID = "C07"
 LEVEL = "exploration"
-BUDGET = {"quick": 960, "thorough": 240000}
+BUDGET = {"quick": 2880, "thorough": 240000}
 TECHNIQUE = "property-based testing with metamorphic oracles (affine-exact, constant-exact, poison-independence) and a restricted reference interpolation"
 RULE = ("Hypothesis-generated nested 3D plotfiles (1-3 levels, partial refinement, mixed extents, non-zero origin, "
         "anisotropic, any layout) carrying analytic fields A (affine along the normal), K (constant along the normal, "
